@@ -277,7 +277,8 @@ impl Prop for C09 {
          0x00xxxx00 and 0xxx0000xx), each issued on info, players and rules: the next request must carry exactly that value. \
          (c) GameSpy 3 challenge texts: every integer in [-4096, 4096], i32 extremes and +-2^k: request carries the i32 big-endian, \
          nothing for 0. (d) Java handshake: hostnames {'', 'a', 255 bytes, non-ASCII} x protocol versions over the i32 alphabet x \
-         ports over the u16 alphabet: varint framing, host name, big-endian port, next state 1, status request, ping"
+         ports over the u16 alphabet, plus protocol versions at every 7-bit VarInt group boundary +-1 and every host-name length 0..=300: \
+         varint framing, host name, big-endian port, next state 1, status request, ping"
             .into()
     }
     fn assumptions(&self) -> Vec<String> {
@@ -472,6 +473,42 @@ impl Prop for C09 {
                                 );
                             }
                         }
+                    }
+                }
+                // VarInt group boundaries: protocol versions at 2^(7k) - 1, 2^(7k), 2^(7k) + 1 and every host length 0..=300
+                // (the host length prefix and, with it, the frame length each cross their 7-bit boundary somewhere in that range)
+                let mut edge: Vec<(String, i32)> = Vec::new();
+                for k in 1 ..= 4u32 {
+                    for d in [-1i64, 0, 1] {
+                        edge.push(("mc.example.org".to_string(), ((1i64 << (7 * k)) + d) as i32));
+                    }
+                }
+                edge.push(("mc.example.org".to_string(), (128 << 7) + 128));
+                edge.push(("mc.example.org".to_string(), -128));
+                for len in 0 ..= 300usize {
+                    for pv in [765, -1, 47] {
+                        edge.push(("h".repeat(len), pv));
+                    }
+                }
+                for (h, pv) in &edge {
+                    let a = SocketAddr::new(IP4, 25565);
+                    let settings = gamedig::games::minecraft::RequestSettings { hostname: h.clone(), protocol_version: *pv };
+                    let x = run_query(mc_server(1), Box::new(Faithful), Chooser::new(&[]), || {
+                        gamedig::games::minecraft::protocol::query_java(&a, None, Some(settings.clone())).map(|r| to_json(&r))
+                    });
+                    ctx.account(&x, 0);
+                    ctx.distinct_key(&("edge", h.len(), pv));
+                    let exp = vec![ConnExpect { tcp: true, addr: a, sends: java_requests(h, *pv, 25565) }];
+                    let got = observed_exchange(&x.log);
+                    if got != exp {
+                        ctx.violation(
+                            "java-handshake",
+                            &[],
+                            format!("handshake for a {}-byte host name, protocol {pv} differs from the Server List Ping framing (VarInt group boundary)", h.len()),
+                            render_exchange(&got),
+                            render_exchange(&exp),
+                            render_log(&x.log),
+                        );
                     }
                 }
                 // the other public ways of building the settings: only a host name (protocol version "unknown" = -1), the
